@@ -151,3 +151,155 @@ Proof.
   cbn -[cmul cadd cob chalf]. unfold cob, COB. cbn -[cmul cadd chalf cq qz].
   ring.
 Qed.
+
+Theorem one_cut_model : forall m k (X : QT M2 m) (OA : QT C m) (tau : Op k) (W : Op (S k)),
+  contract 1 [frag_up (up_meas m X OA); frag_down (fun s => down_prep k tau W (pstate s))]
+  = uncut m k X OA tau W.
+Proof. intros. rewrite contract_single_cut, one_cut_formula. reflexivity. Qed.
+
+(* ------------------------------------------------------------------ order independence of the contraction *)
+Lemma csum_perm : forall l l' : list C, Permutation l l' -> csum l = csum l'.
+Proof.
+  induction 1; cbn [csum fold_right]; try reflexivity.
+  - unfold csum in IHPermutation. rewrite IHPermutation. reflexivity.
+  - ring.
+  - etransitivity; eassumption.
+Qed.
+Lemma cprod_perm : forall l l' : list C, Permutation l l' -> cprod l = cprod l'.
+Proof.
+  induction 1; cbn [cprod fold_right]; try reflexivity.
+  - unfold cprod in IHPermutation. rewrite IHPermutation. reflexivity.
+  - ring.
+  - etransitivity; eassumption.
+Qed.
+Theorem contract_order_indep : forall k frs frs' asg',
+  Permutation frs frs' -> Permutation (tuples paulis k) asg' ->
+  contract_with k asg' frs' = contract k frs.
+Proof.
+  intros k frs frs' asg' Hf Ha. unfold contract, contract_with. f_equal.
+  symmetry. transitivity (csum (map (term frs) asg')).
+  - apply csum_perm. apply Permutation_map. exact Ha.
+  - f_equal. apply map_ext; intro a. unfold term. apply cprod_perm. apply Permutation_map. exact Hf.
+Qed.
+
+(* ------------------------------------------------------------------ k parallel cuts between two fragments *)
+Lemma pairing_kron_l : forall m A X M,
+  pairing (S m) (kron2 m A X) M =
+  cadd (cadd (cmul (q00 A) (pairing m X (q00 M))) (cmul (q01 A) (pairing m X (q10 M))))
+       (cadd (cmul (q10 A) (pairing m X (q01 M))) (cmul (q11 A) (pairing m X (q11 M)))).
+Proof. intros; unfold kron2; cbn [pairing q00 q01 q10 q11]; rewrite !pairing_scale_l; reflexivity. Qed.
+
+Definition J (m : nat) (w : list pl) (N : Op m) : C :=
+  csum (map (fun ss => cmul (cobprod w ss) (pairing m (pprep m ss) N)) (tuples preps m)).
+Definition R (m : nat) (rho M : Op m) : C :=
+  csum (map (fun w => cmul (pairing m rho (pword m w)) (J m w M)) (tuples paulis m)).
+Lemma reconstruct_R : forall n rho M, reconstruct n rho M = cmul (halfpow n) (R n rho M).
+Proof. reflexivity. Qed.
+
+Lemma csum_lin4_c : forall {T} (L : list T) c0 a b c d (E f g p q : T -> C),
+  csum (map (fun r => cmul (cmul c0 (E r))
+                           (cadd (cadd (cmul a (f r)) (cmul b (g r))) (cadd (cmul c (p r)) (cmul d (q r))))) L)
+  = cmul c0 (cadd (cadd (cmul a (csum (map (fun r => cmul (E r) (f r)) L)))
+                        (cmul b (csum (map (fun r => cmul (E r) (g r)) L))))
+                  (cadd (cmul c (csum (map (fun r => cmul (E r) (p r)) L)))
+                        (cmul d (csum (map (fun r => cmul (E r) (q r)) L))))).
+Proof.
+  intros; induction L as [|r L IH]; cbn [map csum fold_right].
+  - ring.
+  - unfold csum in IH; rewrite IH; ring.
+Qed.
+Lemma res_entry : forall p kl,
+  csum (map (fun s => cmul (cob p s) (blk kl (pstate s))) preps) = blk kl (pmat p).
+Proof. intros [| | |] [[|] [|]]; apply ceqb_eq; vm_compute; reflexivity. Qed.
+
+Lemma J_S : forall m p w (M : Op (S m)),
+  J (S m) (p :: w) M =
+  cadd (cadd (cmul (q00 (pmat p)) (J m w (q00 M))) (cmul (q01 (pmat p)) (J m w (q10 M))))
+       (cadd (cmul (q10 (pmat p)) (J m w (q01 M))) (cmul (q11 (pmat p)) (J m w (q11 M)))).
+Proof.
+  intros. unfold J at 1. cbn [tuples]. rewrite csum_flat_map.
+  transitivity (csum (map (fun s =>
+      cadd (cadd (cmul (cmul (cob p s) (q00 (pstate s))) (J m w (q00 M)))
+                 (cmul (cmul (cob p s) (q01 (pstate s))) (J m w (q10 M))))
+           (cadd (cmul (cmul (cob p s) (q10 (pstate s))) (J m w (q01 M)))
+                 (cmul (cmul (cob p s) (q11 (pstate s))) (J m w (q11 M))))) preps)).
+  - f_equal. apply map_ext; intro s.
+    transitivity (csum (map (fun ss => cmul (cmul (cob p s) (cobprod w ss))
+        (cadd (cadd (cmul (q00 (pstate s)) (pairing m (pprep m ss) (q00 M)))
+                    (cmul (q01 (pstate s)) (pairing m (pprep m ss) (q10 M))))
+              (cadd (cmul (q10 (pstate s)) (pairing m (pprep m ss) (q01 M)))
+                    (cmul (q11 (pstate s)) (pairing m (pprep m ss) (q11 M)))))) (tuples preps m))).
+    + f_equal. apply map_ext; intro ss. cbn [cobprod pprep]. rewrite pairing_kron_l. reflexivity.
+    + rewrite csum_lin4_c. unfold J. ring.
+  - rewrite csum_lin4_outer.
+    pose proof (res_entry p (false, false)) as H00. pose proof (res_entry p (false, true)) as H01.
+    pose proof (res_entry p (true, false)) as H10. pose proof (res_entry p (true, true)) as H11.
+    cbn [blk] in H00, H01, H10, H11. rewrite H00, H01, H10, H11. reflexivity.
+Qed.
+
+Lemma bilin4_inner : forall {T} (L : list T) a1 a2 a3 a4 b1 b2 b3 b4 (A1 A2 A3 A4 B1 B2 B3 B4 : T -> C),
+  csum (map (fun w => cmul (cadd (cadd (cmul a1 (A1 w)) (cmul a2 (A2 w))) (cadd (cmul a3 (A3 w)) (cmul a4 (A4 w))))
+                           (cadd (cadd (cmul b1 (B1 w)) (cmul b2 (B2 w))) (cadd (cmul b3 (B3 w)) (cmul b4 (B4 w))))) L)
+  = (cadd (cadd (cadd (cadd (cmul (cmul a1 b1) (csum (map (fun w => cmul (A1 w) (B1 w)) L))) (cmul (cmul a1 b2) (csum (map (fun w => cmul (A1 w) (B2 w)) L)))) (cadd (cmul (cmul a1 b3) (csum (map (fun w => cmul (A1 w) (B3 w)) L))) (cmul (cmul a1 b4) (csum (map (fun w => cmul (A1 w) (B4 w)) L))))) (cadd (cadd (cmul (cmul a2 b1) (csum (map (fun w => cmul (A2 w) (B1 w)) L))) (cmul (cmul a2 b2) (csum (map (fun w => cmul (A2 w) (B2 w)) L)))) (cadd (cmul (cmul a2 b3) (csum (map (fun w => cmul (A2 w) (B3 w)) L))) (cmul (cmul a2 b4) (csum (map (fun w => cmul (A2 w) (B4 w)) L)))))) (cadd (cadd (cadd (cmul (cmul a3 b1) (csum (map (fun w => cmul (A3 w) (B1 w)) L))) (cmul (cmul a3 b2) (csum (map (fun w => cmul (A3 w) (B2 w)) L)))) (cadd (cmul (cmul a3 b3) (csum (map (fun w => cmul (A3 w) (B3 w)) L))) (cmul (cmul a3 b4) (csum (map (fun w => cmul (A3 w) (B4 w)) L))))) (cadd (cadd (cmul (cmul a4 b1) (csum (map (fun w => cmul (A4 w) (B1 w)) L))) (cmul (cmul a4 b2) (csum (map (fun w => cmul (A4 w) (B2 w)) L)))) (cadd (cmul (cmul a4 b3) (csum (map (fun w => cmul (A4 w) (B3 w)) L))) (cmul (cmul a4 b4) (csum (map (fun w => cmul (A4 w) (B4 w)) L))))))).
+Proof.
+  intros; induction L as [|r L IH]; cbn [map csum fold_right].
+  - ring.
+  - unfold csum in IH; rewrite IH; ring.
+Qed.
+
+Lemma R_S_p : forall m p (rho M : Op (S m)),
+  csum (map (fun w => cmul (pairing (S m) rho (pword (S m) (p :: w))) (J (S m) (p :: w) M)) (tuples paulis m))
+  = (cadd (cadd (cadd (cadd (cmul (cmul (q00 (pmat p)) (q00 (pmat p))) (R m (q00 rho) (q00 M))) (cmul (cmul (q00 (pmat p)) (q01 (pmat p))) (R m (q00 rho) (q10 M)))) (cadd (cmul (cmul (q00 (pmat p)) (q10 (pmat p))) (R m (q00 rho) (q01 M))) (cmul (cmul (q00 (pmat p)) (q11 (pmat p))) (R m (q00 rho) (q11 M))))) (cadd (cadd (cmul (cmul (q10 (pmat p)) (q00 (pmat p))) (R m (q01 rho) (q00 M))) (cmul (cmul (q10 (pmat p)) (q01 (pmat p))) (R m (q01 rho) (q10 M)))) (cadd (cmul (cmul (q10 (pmat p)) (q10 (pmat p))) (R m (q01 rho) (q01 M))) (cmul (cmul (q10 (pmat p)) (q11 (pmat p))) (R m (q01 rho) (q11 M)))))) (cadd (cadd (cadd (cmul (cmul (q01 (pmat p)) (q00 (pmat p))) (R m (q10 rho) (q00 M))) (cmul (cmul (q01 (pmat p)) (q01 (pmat p))) (R m (q10 rho) (q10 M)))) (cadd (cmul (cmul (q01 (pmat p)) (q10 (pmat p))) (R m (q10 rho) (q01 M))) (cmul (cmul (q01 (pmat p)) (q11 (pmat p))) (R m (q10 rho) (q11 M))))) (cadd (cadd (cmul (cmul (q11 (pmat p)) (q00 (pmat p))) (R m (q11 rho) (q00 M))) (cmul (cmul (q11 (pmat p)) (q01 (pmat p))) (R m (q11 rho) (q10 M)))) (cadd (cmul (cmul (q11 (pmat p)) (q10 (pmat p))) (R m (q11 rho) (q01 M))) (cmul (cmul (q11 (pmat p)) (q11 (pmat p))) (R m (q11 rho) (q11 M))))))).
+Proof.
+  intros. unfold R. rewrite <- bilin4_inner. f_equal. apply map_ext; intro w.
+  cbn [pword]. rewrite pairing_kron_r, J_S. reflexivity.
+Qed.
+
+Lemma R_S : forall m (rho M : Op (S m)),
+  R (S m) rho M =
+  cadd (cadd (cadd (R m (q00 rho) (q00 M)) (R m (q00 rho) (q00 M))) (cadd (R m (q01 rho) (q10 M)) (R m (q01 rho) (q10 M))))
+       (cadd (cadd (R m (q10 rho) (q01 M)) (R m (q10 rho) (q01 M))) (cadd (R m (q11 rho) (q11 M)) (R m (q11 rho) (q11 M)))).
+Proof.
+  intros. unfold R at 1. cbn [tuples]. rewrite csum_flat_map.
+  transitivity (csum (map (fun p => (cadd (cadd (cadd (cadd (cmul (cmul (q00 (pmat p)) (q00 (pmat p))) (R m (q00 rho) (q00 M))) (cmul (cmul (q00 (pmat p)) (q01 (pmat p))) (R m (q00 rho) (q10 M)))) (cadd (cmul (cmul (q00 (pmat p)) (q10 (pmat p))) (R m (q00 rho) (q01 M))) (cmul (cmul (q00 (pmat p)) (q11 (pmat p))) (R m (q00 rho) (q11 M))))) (cadd (cadd (cmul (cmul (q10 (pmat p)) (q00 (pmat p))) (R m (q01 rho) (q00 M))) (cmul (cmul (q10 (pmat p)) (q01 (pmat p))) (R m (q01 rho) (q10 M)))) (cadd (cmul (cmul (q10 (pmat p)) (q10 (pmat p))) (R m (q01 rho) (q01 M))) (cmul (cmul (q10 (pmat p)) (q11 (pmat p))) (R m (q01 rho) (q11 M)))))) (cadd (cadd (cadd (cmul (cmul (q01 (pmat p)) (q00 (pmat p))) (R m (q10 rho) (q00 M))) (cmul (cmul (q01 (pmat p)) (q01 (pmat p))) (R m (q10 rho) (q10 M)))) (cadd (cmul (cmul (q01 (pmat p)) (q10 (pmat p))) (R m (q10 rho) (q01 M))) (cmul (cmul (q01 (pmat p)) (q11 (pmat p))) (R m (q10 rho) (q11 M))))) (cadd (cadd (cmul (cmul (q11 (pmat p)) (q00 (pmat p))) (R m (q11 rho) (q00 M))) (cmul (cmul (q11 (pmat p)) (q01 (pmat p))) (R m (q11 rho) (q10 M)))) (cadd (cmul (cmul (q11 (pmat p)) (q10 (pmat p))) (R m (q11 rho) (q01 M))) (cmul (cmul (q11 (pmat p)) (q11 (pmat p))) (R m (q11 rho) (q11 M)))))))) paulis)).
+  - f_equal. apply map_ext; intro p. apply R_S_p.
+  - unfold paulis. cbn [map csum fold_right]. unfold pmat, pI, pX, pY, pZ. cbn [q00 q01 q10 q11].
+    generalize (R m (q00 rho) (q00 M)) (R m (q00 rho) (q10 M)) (R m (q00 rho) (q01 M)) (R m (q00 rho) (q11 M)) (R m (q01 rho) (q00 M)) (R m (q01 rho) (q10 M)) (R m (q01 rho) (q01 M)) (R m (q01 rho) (q11 M)) (R m (q10 rho) (q00 M)) (R m (q10 rho) (q10 M)) (R m (q10 rho) (q01 M)) (R m (q10 rho) (q11 M)) (R m (q11 rho) (q00 M)) (R m (q11 rho) (q10 M)) (R m (q11 rho) (q01 M)) (R m (q11 rho) (q11 M)).
+    intros [x1 y1] [x2 y2] [x3 y3] [x4 y4] [x5 y5] [x6 y6] [x7 y7] [x8 y8] [x9 y9] [x10 y10] [x11 y11] [x12 y12] [x13 y13] [x14 y14] [x15 y15] [x16 y16].
+    unfold cmul, cadd, copp, ci, c1, cz. cbn [fst snd]. apply pair_ext; ring.
+Qed.
+
+Lemma halfpow_S_double : forall n x, cmul (halfpow (S n)) (cadd x x) = cmul (halfpow n) x.
+Proof. intros. cbn [halfpow]. rewrite <- (chalf_double x) at 3. ring. Qed.
+
+Theorem reconstruct_pairing : forall n (rho M : Op n), reconstruct n rho M = pairing n rho M.
+Proof.
+  induction n as [|m IH]; intros rho M.
+  - unfold reconstruct. cbn [halfpow tuples map csum fold_right pword pprep cobprod pairing]. ring.
+  - rewrite reconstruct_R, R_S.
+    assert (E : forall a b c d : C,
+              cadd (cadd (cadd a a) (cadd b b)) (cadd (cadd c c) (cadd d d))
+              = cadd (cadd (cadd a b) (cadd c d)) (cadd (cadd a b) (cadd c d))) by (intros; ring).
+    rewrite E, halfpow_S_double.
+    cbn [pairing]. rewrite <- !IH, !reconstruct_R. ring.
+Qed.
+
+(* ------------------------------------------------------------------ cut_circuit_mc: the eight settings *)
+Lemma mc_group : forall t : pl -> C,
+  osum 1 (map (fun x : pl * mcstate * C => oscale 1 (cmul (snd x) (t (fst (fst x)))) (mc_density (snd (fst x)))) mc_settings)
+  = oscale 1 chalf (osum 1 (map (fun p => oscale 1 (t p) (pmat p)) paulis)).
+Proof.
+  intro t. unfold mc_settings, MC_MEAS, MC_STATES, MC_EVALS, paulis.
+  cbn [combine map osum fold_right fst snd].
+  generalize (t PI) (t PX) (t PY) (t PZ). intros [a1 a2] [b1 b2] [c1' c2] [d1 d2].
+  unfold mc_density, pstate, pmat, pI, pX, pY, pZ, chalf, cq, ci, c1, cz.
+  cbn [oscale oadd ozero q00 q01 q10 q11].
+  unfold cmul, cadd, copp, cz. cbn [fst snd]. rewrite qhalf_inv.
+  f_equal; apply pair_ext; field; exact two_neq0.
+Qed.
+Theorem mc_identity : forall a b c d : C,
+  osum 1 (map (fun x : pl * mcstate * C =>
+                 oscale 1 (cmul (snd x) (pairing 1 (m2 a b c d) (pmat (fst (fst x))))) (mc_density (snd (fst x))))
+              mc_settings)
+  = m2 a b c d.
+Proof. intros. rewrite (mc_group (fun p => pairing 1 (m2 a b c d) (pmat p))). apply wirecut_id. Qed.
